@@ -375,7 +375,7 @@ def canonParams (t : ATy) (p : FP) : Bool :=
   let isRaw := match t with | .rawValue => true | _ => false
   let isTime := match t with | .time => true | _ => false
   isRaw ||
-  ((!p.set || isSeq) && (p.stringType == 0 || isStr) && (p.timeType == 0 || isTime) &&
+  ((!p.explicit || p.tag.isSome) && (!p.set || isSeq) && (p.stringType == 0 || isStr) && (p.timeType == 0 || isTime) &&
    (match p.tag with
     | none => true
     | some _ => if p.explicit then marshalClass p == (if p.application then 1 else 2)
@@ -524,6 +524,14 @@ def insertSorted (x : Bytes) : List Bytes → List Bytes
 /-- upstream's `setEncoder`: element encodings in ascending octet-string order -/
 def sortEncodings (l : List Bytes) : List Bytes := l.foldr insertSorted []
 
+/-- the end of `makeField`: universal header, implicit tag, or explicit wrapper around the universal element -/
+def wrapAs (p : FP) (isCompound : Bool) (tag : Nat) (b : Bytes) : Bytes :=
+  match p.tag with
+  | some ptag =>
+    if p.explicit then wrapHeader (marshalClass p) true ptag (wrapHeader 0 isCompound tag b)
+    else wrapHeader (marshalClass p) isCompound ptag b
+  | none => wrapHeader 0 isCompound tag b
+
 /-- the static Go type of the value stored in an `interface{}` by `parseField` -/
 def dynType : AVal → Option ATy
   | .str _ _ => some .str
@@ -567,14 +575,7 @@ def marshalShell (t : ATy) (p : FP) (v : AVal) (body : AVal → Except Err Bytes
             let tag := if p.set then tagSet else tag1
             match body v with
             | .error e => .error e
-            | .ok b =>
-              match p.tag with
-              | some ptag =>
-                if p.explicit then
-                  let innerTLV := wrapHeader 0 isCompound tag b
-                  .ok (wrapHeader (marshalClass p) true ptag innerTLV)
-                else .ok (wrapHeader (marshalClass p) isCompound ptag b)
-              | none => .ok (wrapHeader 0 isCompound tag b)
+            | .ok b => .ok (wrapAs p isCompound tag b)
 
 
 /-- the element loop of `makeBody` for a slice -/
